@@ -201,8 +201,14 @@ def streams(ctx):
         eo = len((pre + tok).encode()) + rng.choice([0, 0, 0, 0, 1, -1, 40])
         so = max(0, so)
         ver = rng.choice(VER) if rng.chance(1, 2) else tok[-rng.below(len(tok) + 1):] if tok else ""
-        hsh = "-" if rng.chance(5, 6) else "S" + "a" * 40
-        lcases.append({"req": vlib.line("ca.locate", content, ver, hsh, str(so), str(max(0, eo)), str(rng.below(3)), str(rng.below(30))), "tag": (tok, ver, so - len(pre.encode()), eo - len((pre + tok).encode()), hsh != "-")})
+        hsh = "-" if rng.chance(4, 6) else "S" + rng.choice(["a" * 40, tok[-3:] if len(tok) >= 3 else "abc", "1.0.0"])
+        more = []
+        if hsh != "-" and rng.chance(1, 2):          # a version comment after the token: "<token><gap># v1"
+            gap = rng.choice([" ", "  ", "\" ", "\t", "", " x "])
+            content = pre + tok + gap + "# v1"
+            cs = len((pre + tok + gap).encode())
+            more = [str(cs + rng.choice([0, 0, 0, 1, 50])), str(cs + 4)]
+        lcases.append({"req": vlib.line("ca.locate", content, ver, hsh, str(so), str(max(0, eo)), str(rng.below(3)), str(rng.below(30)), *more), "tag": (tok, ver, so - len(pre.encode()), eo - len((pre + tok).encode()), hsh, tuple(more))})
     out.append(Stream("locate", lcases, nontrivial=lambda c, o: o != "none"))
     # ---- (d) the handler itself: the real Backend in an LspService, documents whose token is not the version text (JSR import,
     # npm alias, quoted uses) and ordinary ones; code actions requested on every column of the spec line, then the document is
